@@ -275,25 +275,17 @@ def run(ctx):
     n = len(body.blocks[gb]["stmts"])
     for which, gi in (("offer", od_i), ("ask", rd_i)):
         a = t["args"][gi]
-        seen = set()
-        for site, v in (P.alts_with_sites(swap, (gb, n), a["place"]) if a["k"] in ("copy", "move") else []):
-            if site == "entry":
-                continue
-            ks = [k for k, reg in regions.items() if site[0] in reg]
-            if len(ks) != 1:
-                r1.fail("C10.R1:decimals-region:%s" % which, swap.path, common.span_of_block_term(swap, site[0]), "%s decimals defined outside the selection branches" % which)
-                continue
-            k = ks[0]
-            seen.add(k)
+        for k in sorted(regions):
+            v = P.val_operand_in(swap, (gb, n), a, regions[k])
             want = k if which == "offer" else 1 - k
             rs = set(ctx.roots(v))
             if rs != {"load(I:halo_pair::state::PAIR_INFO).asset_decimals[%d]" % want}:
-                r1.fail("C10.R1:decimals:%s:branch%d" % (which, k), swap.path, common.span_of_block_term(swap, site[0]),
+                r1.fail("C10.R1:decimals:%s:branch%d" % (which, k), swap.path, common.span_of_block_term(swap, gb),
                         "branch `offer is pools[%d]`: %s decimals ⊢ %s, expected asset_decimals[%d]" % (k, which, sorted(rs), want))
             else:
                 r1.site("offer == pools[%d]: %s decimals = asset_decimals[%d]" % (k, which, want))
-        if seen != {0, 1}:
-            r1.fail("C10.R1:decimals-coverage:%s" % which, swap.path, common.span_of_block_term(swap, gb), "%s decimals defined in branches %s only" % (which, sorted(seen)))
+        if sorted(regions) != [0, 1]:
+            r1.fail("C10.R1:decimals-coverage:%s" % which, swap.path, common.span_of_block_term(swap, gb), "selection branches found: %s" % sorted(regions))
     pg = common.propagated(P, swap, gb)
     tc = lemmas.transfer_ctor(P)
     pays = pr.calls_to(swap, tc)
